@@ -33,7 +33,7 @@ META = {
 
 def engine_part(ctx):
     rng = ctx.rng
-    n = ctx.n(120, 2500)
+    n = ctx.n(60, 2500)
     base = []
     for i in range(n):
         shape, G = E.gen_graph(rng, E.SHAPES[i % len(E.SHAPES)] if i < 3 * len(E.SHAPES) else None)
@@ -121,7 +121,7 @@ SOLVERS = [("slg", H.SLG), ("rec", H.REC)]
 
 def solver_part(ctx):
     rng = ctx.rng
-    progs = H.programs(rng, ctx.n(6, 80), goals_per=(3, 1, 1))
+    progs = H.programs(rng, ctx.n(3, 80), goals_per=(2, 1, 1))
     # phase 1: clean limited runs (callback count) and fresh answers
     c1, i1 = [], []
     for pi, (p, text, goals, gts) in enumerate(progs):
@@ -173,6 +173,8 @@ def solver_part(ctx):
                 cls = None
                 if sname == "slg" and H.f7_class(p, goals, hist):
                     cls = "F7-slg-coinductive-cycle"
+                elif sname == "slg" and H.f16_class(p, goals[g]):
+                    cls = "F16-slg-answer-order"
                 elif sname == "rec" and H.mixed_class(p, goals):
                     cls = "F27-mixed-cycle"
                 rec = {"kind": "solver-interrupt", "program": text, "solver": sname, "interrupted_goal": gts[gi], "k": k,
